@@ -141,6 +141,46 @@ def second_pid_scenario(ctx, trace, run_id):
         t.stop()
 
 
+def idle_close_scenario(ctx, trace, run_id):
+    """A connection closed BY THE TRACKER (idle longer than max_connection_idle) must leave no peers either."""
+    port = free_port(socket.SOCK_STREAM)
+    cfg = ws_config(port, 2, 2, addr="[::]")
+    cfg["cleaning"]["max_connection_idle"] = 2
+    cfg["cleaning"]["connection_cleaning_interval"] = 1
+    t = Tracker(ctx, "ws", cfg, "c17_idle")
+    cls = []
+    try:
+        tcp_wait_ready(("127.0.0.1", port), tracker=t)
+        trace.append({"ev": "reset", "run": run_id, "tracker": "ws", "max_offers": 10, "max_scrape": 255,
+                      "max_peer_age": 3600, "max_offer_age": 3600, "mode": "off", "dumps": False,
+                      "scenario": "idle_close"})
+        a = WsClient("A", "127.0.0.2", ("127.0.0.1", port))
+        cls.append(a)
+        for h, left in ((1, 0), (2, 1)):
+            a.send_text(announce_msg(h, 1, "started", left, [], []))
+            got = settle([a], 0.15, sender=a)
+            trace.append({"ev": "announce", "c": ["A", 0], "fam": 4, "h": h, "pid": 1, "event": "started",
+                          "left": left, "offers": [], "answer": [], "now": 0, "refused": False,
+                          "out": [abstract_frame(m, n) for n, m in got]})
+        t_end = time.monotonic() + 8.0
+        while not a.closed and time.monotonic() < t_end:
+            a.pump()
+            time.sleep(0.1)
+        if not a.closed:
+            raise ToolError("the tracker did not close an idle connection within 8 s (max_connection_idle = 2)")
+        trace.append({"ev": "close", "c": ["A", 0], "fam": 4, "closed_by": "tracker (idle)"})
+        time.sleep(0.4)
+        b = WsClient("B", "127.0.0.3", ("127.0.0.1", port))
+        cls.append(b)
+        b.send_text(scrape_msg([1, 2]))
+        got = settle([b], 0.3, sender=b)
+        trace.append({"ev": "scrape", "c": ["B", 0], "fam": 4, "hs": [1, 2], "out": [abstract_frame(m, n) for n, m in got]})
+    finally:
+        for c in cls:
+            c.close()
+        t.stop()
+
+
 def classify(ev, prefix, last_state):
     sig = {"tracker": "ws", "part": "server"}
     for e in prefix[:1]:
@@ -226,6 +266,7 @@ def run(ctx):
             total[x] += st[x]
     empty_scrape_scenario(ctx, trace, 900)
     second_pid_scenario(ctx, trace, 901)
+    idle_close_scenario(ctx, trace, 902)
     tp = ctx.path("ws_server.ndjson")
     with open(tp, "w") as f:
         for e in trace:
